@@ -331,6 +331,24 @@ func RuleG1(c *Ctx) {
 				if held(call, false) {
 					unlocked = append(unlocked, fmt.Sprintf("calls %s (which locks again) at %s while holding the lock: self-deadlock as soon as a writer is waiting", g.Name(), c.P.Pos(call.Pos())))
 					nAcc++
+				} else if lockKindOf(info, fd, lt.mx) == "W" {
+					// check-then-act: a locking read of the same receiver made outside the
+					// critical section of a method that then takes the write lock. Whatever it
+					// answered may be stale by the time the lock is held (two writers both see
+					// "absent" and both append the key).
+					takesLater := false
+					ast.Inspect(fd.Body, func(y ast.Node) bool {
+						if lc, ok := y.(*ast.CallExpr); ok && lc.Pos() > call.End() {
+							if lsel, ok := lc.Fun.(*ast.SelectorExpr); ok && fieldSel(info, lsel.X, lt.mx) && lsel.Sel.Name == "Lock" {
+								takesLater = true
+							}
+						}
+						return true
+					})
+					if takesLater {
+						unlocked = append(unlocked, fmt.Sprintf("asks %s (a locking read of the same receiver) at %s before taking the write lock: the answer can be stale once the lock is held (check-then-act is not atomic: two writers can both find the key absent and both insert it)", g.Name(), c.P.Pos(call.Pos())))
+						nAcc++
+					}
 				}
 				return true
 			})
